@@ -228,6 +228,23 @@ CHECKS['C13'] = dict(
     assumptions=['herumi BLS is trusted', 'participants are chosen by Dirk (map iteration), so a fault position is "the k-th message of its kind"'],
 )
 
+CHECKS['C16'] = dict(
+    pkg='c16', level='exploration',
+    technique='property-based testing over an in-process cluster: rogue protocol messages (5 kinds x non-peer identities x session states) injected into honest generations through the real receiver handlers; oracle refusal + unchanged outcome, and share-ownership check on every contribution reply',
+    level_text=('Honest generations on 3-5 instance clusters with 1-3 rogue messages (prepare/execute/contribute/commit/abort, well-formed for the running session) delivered just before '
+                'a drawn honest message, under the identity of a client with All permissions, an unknown name, an empty name, or a configured peer that is not a participant. Non-peer messages '
+                'must be answered with an error and the generation must end exactly as an undisturbed one (success, same composite key on all participants); an idle instance probed with all '
+                'five messages must keep no session (a later honest abort says not in progress). Every contribution reply, honest or provoked, is checked: its secret is the replier\'s vector '
+                'evaluated at the caller\'s id and at no other participant\'s id.'),
+    level_note='Identity injection uses the same context key the clientinfo interceptor sets (as the repository\'s handler tests do); the TLS layer itself is C19\'s subject. Messages from real peers are acted on by design and only held to the share-ownership rule.',
+    parts=[part('TestC16', 200, 2000, qshards=2)],
+    rule=('a case is one generation with 1-3 injected rogue messages; non-trivial iff a non-peer message was delivered while a generation was active on the recipient; distinct = sha256 of the case JSON'),
+    essential=['non-peer-messages-delivered', 'bystander-peer-messages-delivered', 'contribution-replies-checked-for-share-ownership', 'idle-instance-probed',
+               'session-state-none', 'session-state-prepared', 'session-state-executing', 'session-state-all-contributed'] +
+              ['inject-%s-from-client' % m for m in ['prepare', 'execute', 'contribute', 'commit', 'abort']],
+    assumptions=['herumi BLS is trusted'],
+)
+
 ENGINES = [
     dict(name='rapid-harness', path='/verif/harness', kind_free_text='Go test module (pgregory.net/rapid v1.3.0) compiled against /repo with -tags verif; driver /verif/check shards by seed, merges coverage, writes evidence',
          serves_properties=sorted(CHECKS)),
